@@ -647,3 +647,19 @@ func declOf(p *packages.Package, fn *types.Func) *ast.FuncDecl {
 	}
 	return m[fn.Origin()]
 }
+
+// declAnywhere returns the package and declaration of fn among the loaded module packages.
+func (r *Run) declAnywhere(fn *types.Func) (*packages.Package, *ast.FuncDecl) {
+	if fn == nil || fn.Pkg() == nil {
+		return nil, nil
+	}
+	p := r.ByPath[fn.Pkg().Path()]
+	if p == nil || p.TypesInfo == nil {
+		return nil, nil
+	}
+	fd := declOf(p, fn)
+	if fd == nil || fd.Body == nil {
+		return nil, nil
+	}
+	return p, fd
+}
